@@ -144,10 +144,17 @@ EXPECTED_RULES = {("collision_sdf.py", "custom_jvp", "jax"), ("collision_sdf.py"
 def run_mjx(ctx, jobs, timeout):
     drv = os.path.join(F.VERIF, "harness", "drivers", "c45_mjx.py")
     env = dict(os.environ, JAX_PLATFORMS="cpu")
-    try:
-        r = subprocess.run([PY, drv, ctx.repo], input=json.dumps({"jobs": jobs}), capture_output=True, text=True, timeout=timeout, env=env)
-    except subprocess.TimeoutExpired:
-        return None, "timeout after %ds" % timeout
+    import time as _time
+    for attempt in range(3):
+        try:
+            r = subprocess.run([PY, drv, ctx.repo], input=json.dumps({"jobs": jobs}), capture_output=True, text=True, timeout=timeout, env=env)
+        except subprocess.TimeoutExpired:
+            return None, "timeout after %ds" % timeout
+        # XLA/LLVM aborts when the machine is momentarily out of memory for its JIT sections: environment, not an answer
+        if r.returncode != 0 and "Cannot allocate memory" in r.stderr and attempt < 2:
+            _time.sleep(30 * (attempt + 1))
+            continue
+        break
     if r.returncode != 0:
         return None, "rc=%d %s" % (r.returncode, r.stderr[-1500:])
     try:
